@@ -13,6 +13,15 @@ CLAIMED = {
  "C09": ("exploration", "runtime monitoring: reference-grammar oracle (complete CFG recogniser of the documented pattern grammar) over observed accept/reject of both real entry points",
          "All strings to a length bound over a 24-symbol metacharacter-rich alphabet, canonical prints, meaningless-range injections and single-character edits are fed to nfa.Parse and regex ast.Parse; acceptance must imply sentencehood, documented unambiguous forms must be accepted, meaningless ranges must be rejected naming the range, both entry points must agree.",
          "Trusted base: transcription of the documented pattern grammar (ref_patgram.go, 100 lines) with a memoised all-parses recogniser.", "5/C09"),
+ "C04": ("exploration", "runtime monitoring: exhaustive table observation (every ACTION/GOTO entry) against an independently built LALR(1) table, regeneration diff, and differential reference-parser oracle over observed parses of all token sequences to a bound",
+         "Every table entry is observed through parser.ACTION/GOTO and compared up to state renaming with an independent LALR(1) construction of the documented grammar and precedence list; the generator is rebuilt and run twice and diffed with the checked-in file; the real Parser.Parse is driven with all token-kind sequences to length 9 (quick) / 12 (thorough) plus long/deep and random sentences, and accept/reject, error index and the full callback sequence are compared with a recursive-descent reader written from the documentation.",
+         "Trusted base: R4 (LALR construction, 450 lines) and R1 (recursive-descent reader). Sequences longer than the bound are sampled, not enumerated.", "5/C04"),
+ "C05": ("exploration", "runtime monitoring: exhaustive transition observation (61M state x code point pairs through an export shim) against a reference product automaton, plus a reference-scanner oracle over observed NextToken streams",
+         "All (reachable state, code point) pairs of the coded scanner table are observed and bisimulated against the documented token automata; tens of thousands of generated texts are scanned by the real lexer and every token (kind, lexeme, offset, line, column) and the final EOF/lexical error position are compared with the reference scanner.",
+         "Trusted base: R1 scanner components transcribed from the token table. If the shim no longer builds the exhaustive part is skipped and the evidence says so. One-letter TOKEN is masked (documents disagree).", "5/C05"),
+ "C18": ("exploration", "runtime monitoring: callback-trace oracle (recorded token/production/evaluation callbacks vs the post-order of a reference derivation) with error injection at every step",
+         "The real lexer+parser is run on generated specifications with recording callbacks; the log, the evaluation arguments (values and positions) and the final value are compared with the reference reader's derivation; for every step of sampled runs a sentinel error is injected and the parse must stop there and return it.",
+         "Trusted base: R1 reference reader (cross-validated against the tables by C04).", "5/C18"),
 }
 
 PENDING_REASON = "check not built yet in this round (planned, see DESIGN.md section 5)"
